@@ -182,6 +182,7 @@ def run(ch: Choices, focus: str = "C16", params: Optional[dict] = None) -> dict:
             V.append({"property": prop, "oracle": oracle, "message": msg})
 
     opts = e1_engine.focus_opts(focus, ch, known, params)
+    opts["custom_checker"] = False  # the registered checking constraint exists in the interpreted simulation only
     model = gen.gen_model(ch, opts)
     # magnitude: parameters of the linear constraints near the top of the documented 32 bits (gen.magnify)
     model = gen.magnify(ch, model, out["probes"])
